@@ -12,8 +12,8 @@
    [roundtrip m] below is the property for one type, spelled out: parsing the encoded body yields the original
    value, and re-encoding what was parsed yields identical bytes. *)
 From JT.Base Require Import Prelude Fmt.
-From JT.Model Require Import Msg_simple Msg_text Params Msg_all.
-From JT.Proofs Require Import Msg_simple_proofs Msg_helpers_proofs Msg_text_proofs Msg_params_proofs Msg_all_proofs.
+From JT.Model Require Import Msg_simple Msg_text Params Msg_location Msg_all.
+From JT.Proofs Require Import Msg_simple_proofs Msg_helpers_proofs Msg_text_proofs Msg_params_proofs Msg_location_proofs Msg_all_proofs.
 
 Notation roundtrip m :=
   (forall v, m_wf m v = true ->
@@ -101,6 +101,16 @@ Print Assumptions C07_refuted_sign_id_leading_nul.
 Theorem C07_9208_required_roundtrip : forall d, roundtrip (m_9208_required d).
 Proof. exact (fun d => law_of_ok _ (m_9208_required_ok d)). Qed.
 Print Assumptions C07_9208_required_roundtrip.
+
+(* ---- the location family, as far as its encoders go (the 28-byte block; additional information is never
+   written by Encode and is C08's subject).  The domain demands the alarm / status details consistent with their
+   words (they are computed by the bit tables of Model/Location.v) and, for T0x0704, at least one item *)
+Theorem C07_0200_roundtrip : roundtrip m_0200. Proof. exact (law_of_ok _ m_0200_ok). Qed.
+Print Assumptions C07_0200_roundtrip.
+Theorem C07_0704_roundtrip : roundtrip m_0704. Proof. exact (law_of_ok _ m_0704_ok). Qed.
+Print Assumptions C07_0704_roundtrip.
+Theorem C07_0801_roundtrip : roundtrip m_0801. Proof. exact (law_of_ok _ m_0801_ok). Qed.
+Print Assumptions C07_0801_roundtrip.
 
 (* ---- text converted by the external GBK codec: for EVERY pair of functions u2g (UTF82GBK) / g2u (GBK2UTF8)
    with g2u (u2g s) = s on the text domain gdom (validated against golang.org/x/text by the harness) *)
@@ -194,4 +204,14 @@ Example C07_params_example :
   params_encode id_ p = [0;0;0;1;4;0;0;0;60; 0;0;0;16;3;97;98;99; 0;0;0;42;2;1;2] /\
   m_wf (m_0100 id_ id_ (fun _ => true) 2)
     (VL [VN 31; VN 115; VB [49]; VB [65; 66]; VB [55]; VN 1; VB [65; 49; 50; 51]; VN 1]) = true.
+Proof. repeat split; vm_compute; reflexivity. Qed.
+
+(* a location report inside the domain: alarm bit 0 and status bits 1, 8 set, details as the tables give them *)
+Example C07_location_example :
+  let blk := VL [VN 1; VN 258; VN 31000000; VN 121000000; VN 10; VN 600; VN 90;
+                 VB [50;48;50;52;45;48;49;45;51;49;32;50;51;58;53;57;58;53;57]; aflags_val 1; sflags_val 258] in
+  m_wf m_0200 (VL [blk; no_adds]) = true /\
+  m_wf m_0704 (VL [VN 2; VN 1; VL [VL [VN 28; blk; no_adds]; VL [VN 28; blk; no_adds]]]) = true /\
+  m_wf m_0801 (VL [VN 9; VN 0; VN 0; VN 1; VN 2; blk; VB [255; 216]]) = true /\
+  aflags_val 1 = VL (VN 1 :: repeat (VN 0) 31).
 Proof. repeat split; vm_compute; reflexivity. Qed.
